@@ -7,6 +7,7 @@ import (
 	"go/token"
 	"go/types"
 	"regexp"
+	"sort"
 	"strconv"
 	"strings"
 
@@ -1665,7 +1666,7 @@ func (c *Ctx) emptiedDocRule(rule string) {
 // overlayRule: the loader never lets the go command read the file at the output path.
 func (c *Ctx) overlayRule(rule string) {
 	r := c.R
-	r.Rule(rule, "the packages.Config given to packages.Load carries an Overlay computed from the output path: a map whose key is filepath.Abs(<output path>) and whose value is \"package \" + <package name parsed from the setup file (PackageClauseOnly)> – the go command reads the package clause of every file in the directory, so the previous output (truncated inside its package name, or from before a rename) must be presented as an empty file of the setup file's package (finding F26)")
+	r.Rule(rule, "the packages.Config given to packages.Load carries an Overlay computed from the output path: a map with one entry, made only if filepath.EvalSymlinks(<directory of the setup file>) == filepath.Dir(filepath.EvalSymlinks(<absolute output path>)) – the go command reads the directory as it is on disk, however the paths are spelled –, whose key is filepath.Join(<directory of the setup file as spelled>, filepath.Base(<resolved output path>)) – the name the go command, which runs in that directory, gives the file – and whose value is \"package \" + <package name parsed from the setup file (PackageClauseOnly)> – the go command reads the package clause of every file in the directory, so the previous output (truncated inside its package name, or from before a rename) must be presented as an empty file of the setup file's package (finding F26)")
 	n := 0
 	for _, fn := range c.P.Funcs() {
 		p := pkgOf(fn)
@@ -1722,8 +1723,43 @@ func (c *Ctx) overlayRule(rule string) {
 							continue
 						}
 						nUpd++
-						k := c.O.Of(mu.Key)
-						okKey = k.Contains(func(s *core.Term) bool { return s.IsCallTo("path/filepath.Abs") && s.Args[0].String() == dstP })
+						// the key names the file the way the go command does: <directory of the setup file as spelled>/<base name of
+						// the output file once links are followed>; the entry is made only if both really are in one directory
+						absOf := func(p string) func(*core.Term) bool {
+							return func(s *core.Term) bool {
+								return s.Kind == "extract" && s.Name == "0" && s.Args[0].IsCallTo("path/filepath.Abs") && s.Args[0].Args[0].String() == p
+							}
+						}
+						realOf := func(inner func(*core.Term) bool) func(*core.Term) bool {
+							return func(s *core.Term) bool {
+								return s.Kind == "extract" && s.Name == "0" && s.Args[0].IsCallTo("path/filepath.EvalSymlinks") && inner(s.Args[0].Args[0])
+							}
+						}
+						dirOf := func(inner func(*core.Term) bool) func(*core.Term) bool {
+							return func(s *core.Term) bool { return s.IsCallTo("path/filepath.Dir") && inner(s.Args[0]) }
+						}
+						srcP := ""
+						for _, hp := range helper.Params {
+							if "param:"+hp.Name() != dstP {
+								srcP = "param:" + hp.Name()
+							}
+						}
+						if kc, isKC := mu.Key.(*ssa.Call); isKC && core.CalleeName(&kc.Call) == "path/filepath.Join" && len(kc.Call.Args) == 1 {
+							e0, e1, e2 := c.varargAt(kc.Call.Args[0], 0), c.varargAt(kc.Call.Args[0], 1), c.varargAt(kc.Call.Args[0], 2)
+							okKey = e0 != nil && e1 != nil && e2 == nil && dirOf(absOf(srcP))(e0) && e1.IsCallTo("path/filepath.Base") && realOf(absOf(dstP))(e1.Args[0])
+						}
+						sameRealDir := c.M(true, func(t *core.Term) bool {
+							if t.Kind != "binop" || t.Name != "==" {
+								return false
+							}
+							for i := 0; i < 2; i++ {
+								if realOf(dirOf(absOf(srcP)))(t.Args[i]) && dirOf(realOf(absOf(dstP)))(t.Args[1-i]) {
+									return true
+								}
+							}
+							return false
+						})
+						okKey = okKey && c.ReachOf(mu).Implies(sameRealDir)
 						v := c.O.Of(mu.Value)
 						okVal = v.Contains(func(s *core.Term) bool { return s.Is("const", `"package "`) }) &&
 							v.Contains(func(s *core.Term) bool {
@@ -1734,7 +1770,7 @@ func (c *Ctx) overlayRule(rule string) {
 					}
 				}
 				r.Check(rule, FnKey(fn)+":Overlay", c.InstrPos(a), nUpd == 1 && okKey && okVal,
-					sprintf("the overlay must map filepath.Abs(output path) to \"package <name of the setup file's package>\" (updates %d, key ok %v, value ok %v)", nUpd, okKey, okVal))
+					sprintf("the overlay must map <directory of the setup file as spelled>/<base name of the output file with links followed> to \"package <name of the setup file's package>\", under EvalSymlinks(dir of the setup file) == Dir(EvalSymlinks(output path)): directories compared as spelled leave an output path that goes through a symbolic link visible to the go command (updates %d, key ok %v, value ok %v)", nUpd, okKey, okVal))
 			}
 		}
 	}
@@ -1744,10 +1780,12 @@ func (c *Ctx) overlayRule(rule string) {
 // fsReadInventory: module code looks at the file system only at the confirmed sites.
 func (c *Ctx) fsReadInventory(rule string) {
 	r := c.R
-	r.Rule(rule, "file-reading inventory: the calls from module code that read the file system are exactly os.Stat of the two paths and of each file offered to the ParseFile hook, packages.Load, the package-clause parse of the setup file for the loader overlay, and imports.Process; nothing opens, reads or lists anything else (in particular nothing reads the output path: whatever it holds cannot influence the run)")
+	r.Rule(rule, "file-reading inventory: the calls from module code that read the file system are exactly os.Stat of the two paths and of each file offered to the ParseFile hook, the link resolution (filepath.EvalSymlinks) of the setup file's directory and of the output path for the loader overlay, packages.Load, the package-clause parse of the setup file for the loader overlay, and imports.Process; nothing opens, reads or lists anything else (in particular nothing reads the output path: whatever it holds cannot influence the run)")
 	table := map[string]int{
 		"parser.NewParser:os.Stat": 2, "parser.NewParser$1:os.Stat": 1, "parser.NewParser:golang.org/x/tools/go/packages.Load": 1,
 		"parser.outputOverlay:os.Stat": 1, "parser.outputOverlay:go/parser.ParseFile": 1,
+		// lstat/readlink along the two paths, to compare the real directories (F58); opens nothing
+		"parser.outputOverlay:path/filepath.EvalSymlinks": 2,
 		"(*generator.Generator).Generate:golang.org/x/tools/imports.Process": 1,
 	}
 	seen := map[string]int{}
@@ -2072,15 +2110,26 @@ func (c *Ctx) typecastIdentityRule(rule string) {
 	if fn == nil {
 		return
 	}
-	// every comparison of scope.Lookup(…) in the function is against Obj(), never against nil
+	// every comparison of scope.Lookup(…) in the function (and in the helpers of its package it calls) is against Obj(),
+	// never against nil
 	n := 0
-	for _, b := range fn.Blocks {
+	var blocks []*ssa.BasicBlock
+	for f := range c.samePkgCallees(fn, 2) {
+		blocks = append(blocks, f.Blocks...)
+	}
+	sort.Slice(blocks, func(i, j int) bool {
+		if blocks[i].Parent() != blocks[j].Parent() {
+			return blocks[i].Parent().String() < blocks[j].Parent().String()
+		}
+		return blocks[i].Index < blocks[j].Index
+	})
+	for _, b := range blocks {
 		for _, in := range b.Instrs {
 			bo, ok := in.(*ssa.BinOp)
 			if !ok {
 				continue
 			}
-			x, y := c.O.Of(bo.X), c.O.Of(bo.Y)
+			x, y := c.OfUpTo(bo.X, fn), c.OfUpTo(bo.Y, fn)
 			if !x.IsCallTo("(*go/types.Scope).Lookup") && !y.IsCallTo("(*go/types.Scope).Lookup") {
 				continue
 			}
@@ -2090,7 +2139,7 @@ func (c *Ctx) typecastIdentityRule(rule string) {
 				other = x
 			}
 			isObj := other.Contains(func(t *core.Term) bool { return t.IsCallTo("(*go/types.Named).Obj") })
-			r.Check(rule, sprintf("%s:lookup-compare%d", FnKey(fn), n), c.InstrPos(bo), isObj, "the conversion target is taken for a local type whenever the package scope has ANY object of that name (compared with "+other.String()+"): an imported type named like a local function or type loses its qualifier")
+			r.Check(rule, sprintf("%s:lookup-compare%d", FnKey(bo.Parent()), n), c.InstrPos(bo), isObj, "the conversion target is taken for a local type whenever the package scope has ANY object of that name (compared with "+other.String()+"): an imported type named like a local function or type loses its qualifier")
 		}
 	}
 	r.Floor(rule, "comparisons of scope.Lookup in NewTypecast", n, 1)
@@ -2120,6 +2169,33 @@ func (c *Ctx) typecastIdentityRule(rule string) {
 		}
 		r.Floor(rule, "SliceTypecastAssignment literals with a Cast", m, 1)
 	}
+}
+
+// samePkgCallees returns fn and the functions of its own package that it calls statically, up to the given depth.
+func (c *Ctx) samePkgCallees(fn *ssa.Function, depth int) map[*ssa.Function]bool {
+	out := map[*ssa.Function]bool{fn: true}
+	frontier := []*ssa.Function{fn}
+	for d := 0; d < depth; d++ {
+		var next []*ssa.Function
+		for _, f := range frontier {
+			for _, b := range f.Blocks {
+				for _, in := range b.Instrs {
+					ci, ok := in.(ssa.CallInstruction)
+					if !ok {
+						continue
+					}
+					g := ci.Common().StaticCallee()
+					if g == nil || out[g] || pkgOf(g) == nil || pkgOf(g) != pkgOf(fn) || len(g.Blocks) == 0 {
+						continue
+					}
+					out[g] = true
+					next = append(next, g)
+				}
+			}
+		}
+		frontier = next
+	}
+	return out
 }
 
 // converterArgRule: a converter is never applied to a source that also returns an error.
@@ -2271,7 +2347,7 @@ func (c *Ctx) nestedArgsRule(rule string) {
 			for _, s := range c.CallsIn(af, "(*"+pBld+"assignmentBuilder).structToStruct", false) {
 				n++
 				a := c.O.Of(s.Args()[3])
-				r.Check(rule, FnKey(af)+":nested-copy-args", c.Pos(s.Pos()), !a.Is("const", "nil"), "the nested copy is started with nil additional arguments")
+				r.Check(rule, "candidate-handler-of-the-default-matcher:nested-copy-args", c.Pos(s.Pos()), !a.Is("const", "nil"), "the nested copy is started with nil additional arguments")
 			}
 		}
 	}
@@ -2296,7 +2372,7 @@ func (c *Ctx) pointerDescentRule(rule string) {
 				if n > 1 {
 					continue // one finding per handler: the first test stands for all
 				}
-				r.Check(rule, FnKey(af)+":descent-sees-through-pointers", c.Pos(s.Pos()), a.IsCallTo(fnDerefPtr), "member-wise descent is decided on "+a.String()+" without DerefPtr")
+				r.Check(rule, "candidate-handler-of-the-default-matcher:descent-sees-through-pointers", c.Pos(s.Pos()), a.IsCallTo(fnDerefPtr), "member-wise descent is decided on "+a.String()+" without DerefPtr")
 			}
 		}
 	}
